@@ -1161,7 +1161,10 @@ class MiniVM:
             raise VMRaise_native(TypeError(f"{node.name}() missing {missing}"))
         if isinstance(node, ast.Lambda):
             return self.eval(node.body, env, func.mod, func.owner)
-        if any(isinstance(x, (ast.Yield, ast.YieldFrom)) for x in walk_local(node)):
+        is_gen = getattr(node, "_vm_is_generator", None)
+        if is_gen is None:
+            is_gen = node._vm_is_generator = any(isinstance(x, (ast.Yield, ast.YieldFrom)) for x in walk_local(node))
+        if is_gen:
             return VMGenerator(self, func, env)
         try:
             self.block(node.body, env, func.mod, func.owner)
